@@ -80,7 +80,18 @@ def script_case(idx, c, ws, origin, warm=False):
             if g["name"] != f["name"]:
                 ops.append({"op": "open", "file": g["name"], "text": files[g["name"]]})
                 ops.append({"op": "close", "file": g["name"]})
-    ops.append({"op": "open", "file": f["name"], "text": files[f["name"]]})
+    # the document first holds an EARLIER text (its last transaction not typed yet) and is hovered there; then the rest is
+    # typed. Whatever the first hovers left behind (totals kept per include tree) must not survive the change.
+    earlier = None
+    if warm and len(f["abs"]) >= 2 and f["abs"][-1]["type"] == "tx":
+        cut = f["firsts"][-1] - 1
+        earlier = "\n".join(f["lines"][:cut]) + "\n"
+    if earlier is not None:
+        ops.append({"op": "open", "file": f["name"], "text": earlier})
+        ops.append({"op": "sweep", "file": f["name"], "kinds": ["hover"], "positions": [p for p in positions if p[0] < cut][:12]})
+        ops.append({"op": "change", "file": f["name"], "text": files[f["name"]]})
+    else:
+        ops.append({"op": "open", "file": f["name"], "text": files[f["name"]]})
     if warm:
         ops.append({"op": "change", "file": f["name"], "text": files[f["name"]] + "\n; typed\n"})
         ops.append({"op": "change", "file": f["name"], "text": files[f["name"]]})
